@@ -67,10 +67,10 @@ def project(text, stream):
     return {"s": 0, "e": 0, "raw": text}
 
 
-def case_of(o, p, l, mfm, ofm):
+def case_of(o, p, l, mfm, ofm, rng=()):
     """Observation -> case record for Trace_Match (uniform field set)."""
     c = {"p": p, "l": l, "mfm": mfm, "ofm": ofm, "outcome": o["outcome"], "stream": "",
-         "all": [], "first": [], "all_addr": [], "first_addr": [], "bools": []}
+         "all": [], "first": [], "all_addr": [], "first_addr": [], "bools": [], "range": list(rng)}
     if o["outcome"] != "ok":
         return c
     res = o["res"]
